@@ -41,6 +41,10 @@ def jobs():
         jobs_tool.register(_JOBS)
         from . import jobs_rfwc
         jobs_rfwc.register(_JOBS)
+        for j in _JOBS:
+            # every function under a dfcc contract carries a frame (assigns clause): C18 (b)
+            if j.enforce and "C18" not in j.props:
+                j.props.append("C18")
         names = [j.name for j in _JOBS]
         assert len(names) == len(set(names)), "duplicate job names"
     return _JOBS
@@ -247,3 +251,19 @@ prop("C19", "model_checking",
      "(getopt, environment, path set-up) and the edit/revert commands are not under check; the exit status path "
      "`return ret` is read, not verified. The library side is C01/C11/C12/C17.",
      "CBMC bounded symbolic execution of econftool's functions against executable library contracts", "6 C19")
+
+prop("C18", "other",
+     "Contracts have no threads and no interleaving is examined. What is decided is the sequential sufficient "
+     "condition for thread confinement: (a) a fact recomputed on every run from the goto symbol table of the linked "
+     "library: there is no static-lifetime object (file-scope or function-local static) outside the documented "
+     "process-wide ones (last-scanned line/file name, conf_dirs/conf_count, the eight restriction variables, the "
+     "read-only message table and the errString buffer); (b) for every function under a dfcc contract the frame "
+     "(__CPROVER_assigns) is enforced: typed getters/setters, the choke point read_file_with_callback, "
+     "readConfigWithCallback and the five restriction setters write only their out-parameters, their own object, "
+     "fresh memory and (choke point: nothing; setters: exactly the documented globals). Hence calls on disjoint "
+     "objects share no library memory beyond what the property exempts.",
+     "Schedules are NOT explored (a different technique family would be needed); the parser, merge, writer and "
+     "list functions are not under dfcc frames (their jobs compare inputs before/after instead); libc functions "
+     "used are assumed MT-safe; callers are assumed not to share objects.",
+     "static-lifetime symbol whitelist from the goto symbol table + dfcc frame (assigns) checking; no schedule "
+     "exploration", "6 C18")
